@@ -142,7 +142,7 @@ func TestVerifC39(t *testing.T) {
 	rec := kit.Start(t, "C39", "readonly")
 	defer rec.Finish()
 	env := rec.Env
-	n := env.Pick(8, 160)
+	n := env.Pick(8, 64)
 	for i := 0; i < n; i++ {
 		if !env.Mine(i) {
 			continue
